@@ -67,6 +67,7 @@ type ChecksumSvc struct {
 }
 
 type Universe struct {
+	initOnly map[*ssa.Function]int
 	P          *Program
 	Types      []*CodecType
 	TypeByName map[string]*CodecType
@@ -805,6 +806,14 @@ func (u *Universe) classifyMapValue(t *Table, fn *ssa.Function, ld ssa.Value) {
 			if mapQueryUse(r, ld, 0) {
 				continue // asks whether a key is there, how many there are, which keys: no factory leaves the table this way
 			}
+			if isInitFunc(fn) || u.calledFromInitOnly(fn) {
+				// start-up code reading the table it has just filled (a self-check that no entry is nil, that every
+				// factory builds a known type): reads during initialisation change nothing
+				switch r.(type) {
+				case *ssa.Range, *ssa.Lookup:
+					continue
+				}
+			}
 			switch r := r.(type) {
 			case *ssa.Lookup:
 				if r.X == ld {
@@ -974,6 +983,47 @@ func paramMapUse(call *ssa.Call, v ssa.Value, depth int) string {
 		}
 	}
 	return res
+}
+
+// calledFromInitOnly: fn is an unexported module function whose every use is a direct call from an init function (a
+// start-up self-check factored out of init).
+func (u *Universe) calledFromInitOnly(fn *ssa.Function) bool {
+	if fn == nil || fn.Object() == nil || fn.Object().Exported() || fn.Parent() != nil {
+		return false
+	}
+	if u.initOnly == nil {
+		u.initOnly = map[*ssa.Function]int{} // 1 only init callers, 2 other uses
+		for f := range u.P.AllFuncs {
+			if !u.P.InModule(f) || f.Blocks == nil || u.P.IsTestFile(f.Pos()) {
+				continue
+			}
+			for _, b := range f.Blocks {
+				for _, in := range b.Instrs {
+					for _, op := range in.Operands(nil) {
+						if op == nil || *op == nil {
+							continue
+						}
+						g, ok := (*op).(*ssa.Function)
+						if !ok {
+							continue
+						}
+						direct := false
+						if c, isCall := in.(*ssa.Call); isCall && c.Call.Value == ssa.Value(g) {
+							direct = true
+						}
+						if direct && isInitFunc(f) {
+							if u.initOnly[g] == 0 {
+								u.initOnly[g] = 1
+							}
+						} else {
+							u.initOnly[g] = 2
+						}
+					}
+				}
+			}
+		}
+	}
+	return u.initOnly[fn] == 1
 }
 
 // mapQueryUse: the instruction r uses the map value v only to ask about its keys: a comma-ok look-up whose value is
@@ -1281,6 +1331,24 @@ func (u *Universe) discoverServices() error {
 						work = append(work, cal)
 					}
 				}
+				// function literals and function values start-up code makes or hands on (an option closure run by a
+				// constructor, a callback): they run – if at all – as part of start-up too
+				for _, op := range in.Operands(nil) {
+					if op == nil || *op == nil {
+						continue
+					}
+					var lit *ssa.Function
+					switch v := (*op).(type) {
+					case *ssa.Function:
+						lit = v
+					case *ssa.MakeClosure:
+						lit, _ = v.Fn.(*ssa.Function)
+					}
+					if lit != nil && lit.Blocks != nil && p.InModule(lit) && !startup[lit] && !p.IsTestFile(lit.Pos()) {
+						startup[lit] = true
+						work = append(work, lit)
+					}
+				}
 			}
 		}
 	}
@@ -1317,6 +1385,21 @@ func (u *Universe) discoverServices() error {
 				seen[named] = true
 				s := &ChecksumSvc{Type: named, Calc: calc, AlgoFn: algo, RegCall: mi}
 				s.Name = constStringResult(algo)
+				if s.Name == "" {
+					// the name spelt through a typed constant and a method (`return AlgCRC16.String()`): evaluated
+					e := NewEngine(p)
+					e.MaxPaths = 16
+					if paths, err := e.AnalyzeRoot(algo, nil); err == nil && len(paths) == 1 && len(paths[0].Ret) == 1 && paths[0].Trunc == "" && !paths[0].Panic {
+						if r := stripCT(paths[0].Ret[0]); r != nil {
+							for r.Op == "conv" && len(r.Args) == 1 && isStringOrBytes(r.Type) {
+								r = stripCT(r.Args[0])
+							}
+							if r.IsConst() && r.C != nil && r.C.Kind() == constant.String {
+								s.Name = constant.StringVal(r.C)
+							}
+						}
+					}
+				}
 				if calc.Signature.Results().Len() == 1 {
 					s.ResultT = calc.Signature.Results().At(0).Type()
 				}
